@@ -70,6 +70,17 @@ def extract(repo: Path):
         # anything else read from the node or the spec inside the switch is unknown to the model
         for m in re.finditer(r'\b(node\.(?!node_data|kind|arity)\w+|m_\w+)', sw_body):
             node_fields.append('?' + m.group(1))
+        # every value fed to HashCombine inside the switch must be a Python *value* hash (py::hash): == compares node_data
+        # with Python ==, so hashing an object identity (py::handle / .ptr()) breaks "equal treespecs hash equally"
+        for m in re.finditer(r'HashCombine\s*(<[^>]*>)?\s*\(\s*seed\s*,', sw_body):
+            d, k = 1, m.end()
+            while k < len(sw_body) and d:
+                d += sw_body[k] == '('
+                d -= sw_body[k] == ')'
+                k += 1
+            arg = re.sub(r'\s+', '', sw_body[m.end():k - 1])
+            if m.group(1) or 'py::hash(' not in arg or '.ptr()' in arg:
+                node_fields.append('?identity-hash:' + (m.group(1) or '') + arg[:60])
     return spec_fields, node_fields
 
 
